@@ -37,7 +37,10 @@ Bases == <<
      Used(2, "TERMOSOLAR", "ACS", <<2, 4>>), Used(2, "EAMBIENTE", "ACS", <<2, 0>>), Used(1, "ELECTRICIDAD", "CAL", <<4, 2>>),
      Used(2, "ELECTRICIDAD", "CAL", <<2, 4>>) >> >>
 
-Init == \E b \in 1..Len(Bases) : base = b /\ file = FileOf(Bases[b]) /\ d = 0 /\ renamed = FALSE
+\* two of the base files carry metadata (first lines of the file, as the program writes them)
+BaseFile(b) == IF b \in {1, 4} THEN WithMeta(FileOf(Bases[b]), <<MetaLine("CTE_AREAREF", "20"), MetaLine("Nota", "texto libre")>>)
+               ELSE FileOf(Bases[b])
+Init == \E b \in 1..Len(Bases) : base = b /\ file = BaseFile(b) /\ d = 0 /\ renamed = FALSE
 
 Pos(f) == {i \in 1..Len(f.lines) : i \in Positions \/ i = Len(f.lines)}
 Rewrite ==
@@ -50,7 +53,7 @@ Rewrite ==
      \/ \E i \in Pos(file) : file' = AddRemark(file, i) /\ UNCHANGED renamed
      \/ file.lines[1].t # "header" /\ file' = AddHeader(file) /\ UNCHANGED renamed
      \/ ~file.bom /\ file' = AddBom(file) /\ UNCHANGED renamed
-     \/ \E i \in Pos(file) : IsCompLine(file, i) /\ ~file.lines[i].pad /\ file' = PadWhitespace(file, i) /\ UNCHANGED renamed
+     \/ \E i \in Pos(file) : CanPad(file, i) /\ ~file.lines[i].pad /\ file' = PadWhitespace(file, i) /\ UNCHANGED renamed
      \/ \E i \in 1..Len(file.lines) : CanOmitId(file.lines[i]) /\ file' = ToggleId0(file, i) /\ UNCHANGED renamed
 Next == Rewrite
 Spec == Init /\ [][Next]_vars
@@ -60,7 +63,7 @@ UnRename(tg) == <<tg[1], IF tg[1] = "NEED" THEN tg[2] ELSE (7 - tg[2]) \div 3, t
 DenoteBase(f, ren) ==
   LET dn == Denote(f) IN
   IF ren THEN [tg \in {UnRename(x) : x \in DOMAIN dn} |-> dn[CHOOSE x \in DOMAIN dn : UnRename(x) = tg]] ELSE dn
-DenotationPreserved == DenoteBase(file, renamed) = Denote(FileOf(Bases[base]))
+DenotationPreserved == DenoteBase(file, renamed) = Denote(BaseFile(base)) /\ MetaOf(file) = MetaOf(BaseFile(base))
 
 \* the normalised declaration: closed form of the normalisation, summed per tag tuple
 RECURSIVE FoldAuxC(_, _)
@@ -81,7 +84,7 @@ NormDenote(f, ren) ==
       tags == {tg(C[i]) : i \in 1..Len(C)}
   IN [ok |-> k.ok,
       sums |-> [x \in tags |-> [t \in 1..NSteps(C) |-> SumSet(LAMBDA i : C[i].v[t], {i \in 1..Len(C) : tg(C[i]) = x})]]]
-NormalisedDeclarationPreserved == NormDenote(file, renamed) = NormDenote(FileOf(Bases[base]), FALSE)
+NormalisedDeclarationPreserved == NormDenote(file, renamed) = NormDenote(BaseFile(base), FALSE)
 
 Emit == PrintT(<<"CASE", ToJson([base |-> base, depth |-> d, src |-> file])>>)
 =============================================================================
